@@ -426,6 +426,12 @@ func init() {
 			return cur
 		case *Term:
 			a = unwrapCoinsSlice(a)
+			if a.Sort != SCoins && isSliceSort(a.Sort) {
+				// Add(list...) of a []sdk.Coin list: the list is taken to be a valid Coins value (sorted, no duplicate
+				// denominations), so that adding its coins one by one adds the Coins value NewCoins(list...) denotes
+				x.assumed["Coins.Add of a []sdk.Coin list at "+c.Pos+": the list is a valid Coins value"] = true
+				a = UF("coins_of_slice", SCoins, a)
+			}
 			if a.Sort == SCoins {
 				return x.pointwise(st, "coins_add", cur, a, func(p, q *Term) *Term { return Add(p, q) })
 			}
